@@ -338,6 +338,10 @@ def build_request(ex, meta):
         r["field_types"] = dict(x.replace("~", " ").split(":", 1) for x in o["field_types"].split(","))
     if o.get("copied_to_map") == "1":
         r["copied_to_map"] = True
+    if "slice_stmt" in o:
+        r["slice_stmt"] = o["slice_stmt"].replace("~", " ")
+        if "slice_tail" in o:
+            r["slice_tail"] = o["slice_tail"].replace("~", " ")
     if "slice_from" in o or "slice_to" in o:
         r["slice"] = {"from": o.get("slice_from", "").replace("~", " ") or None,
                       "to": o.get("slice_to", "").replace("~", " ") or None}
@@ -525,6 +529,9 @@ def assemble(unit, workdir, vacuity_twins=False):
                 raise UnitError(f"LOST-ANCHOR {ex['path']}: signature shape changed ({k}: {shape[k]!r})")
         retname = ex["opts"].get("ret", "r")
         sig = item["sig"]
+        if ex["opts"].get("slice_sig"):
+            sig = ex["opts"]["slice_sig"].replace("~", " ")
+            item["ret"] = ex["opts"].get("slice_ret", "").replace("~", " ")
         if ex["opts"].get("rename"):
             sig = re.sub(r"\bfn\s+\w+", "fn " + ex["opts"]["rename"], sig, count=1)
         if item["ret"]:
